@@ -87,6 +87,16 @@ const HAND: &[(&str, &str)] = &[
         (func (export "via_global_big") (result i32) i32.const 3 global.get $gb table.set 0 i32.const 3 call_indirect (result i32))
         (func (export "swap") global.get $gs global.set $gb)
         (func (export "init_passive") i32.const 1 i32.const 0 i32.const 3 table.init $p))"#),
+    // every byte of a v128 constant is observable: in a function body (stored, then read back byte by byte; lanes extracted) and in a global initialiser
+    ("simd-constants", r#"(module (memory (export "m0") 1) (global $gv v128 (v128.const i32x4 0x11223344 0x55667788 0x99aabbcc 0xddeeff01))
+        (func (export "byte") (param i32) (result i32) i32.const 0 v128.const i8x16 1 2 3 4 5 6 7 8 9 10 11 12 13 14 15 200 v128.store local.get 0 i32.const 15 i32.and i32.load8_u)
+        (func (export "gbyte") (param i32) (result i32) i32.const 32 global.get $gv v128.store local.get 0 i32.const 15 i32.and i32.load8_u offset=32)
+        (func (export "top_byte") (result i32) v128.const i8x16 0 1 2 3 4 5 6 7 8 9 10 11 12 13 14 200 i8x16.extract_lane_u 15)
+        (func (export "f32_lane3") (result f32) v128.const f32x4 1.5 -2.25 3.0 1.5 f32x4.extract_lane 3)
+        (func (export "f64_lane1") (result f64) v128.const f64x2 0.1 -7.5 f64x2.extract_lane 1)
+        (func (export "global_lane3") (result i32) global.get $gv i32x4.extract_lane 3)
+        (func (export "shuffled") (result i32) v128.const i8x16 0 1 2 3 4 5 6 7 8 9 10 11 12 13 14 15 v128.const i8x16 16 17 18 19 20 21 22 23 24 25 26 27 28 29 30 31
+            i8x16.shuffle 31 30 29 28 27 26 25 24 7 6 5 4 3 2 1 0 i32x4.extract_lane 0))"#),
     ("unused-things", r#"(module (memory 1) (global $unused (mut i64) (i64.const 9)) (func $dead_fn (result i32) i32.const 77)
         (func $helper (param i64) (result i64) local.get 0 i64.const 3 i64.mul) (func (export "f") (param i64) (result i64) local.get 0 call $helper)
         (func (export "sel") (param i32 i32 i32) (result i32) local.get 0 local.get 1 local.get 2 select))"#),
